@@ -266,6 +266,7 @@ def main(argv: Optional[List[str]] = None) -> int:
     ap.add_argument("prop")
     ap.add_argument("--tier", default=os.environ.get("VERIF_TIER", "quick"), choices=["quick", "thorough"])
     ap.add_argument("--replay")
+    ap.add_argument("--shard-only", action="store_true", help="(internal) replay: skip the single case, re-run its whole shard")
     ap.add_argument("--jobs", type=int, default=int(os.environ.get("VERIF_JOBS", "16")))
     ap.add_argument("--only", help="substring filter on shard repr (debugging; evidence marked partial)")
     a = ap.parse_args(argv)
@@ -285,12 +286,21 @@ def main(argv: Optional[List[str]] = None) -> int:
         with open(a.replay) as f:
             art = json.load(f)
         case = jdec(art["case"])
-        res = mod.replay(case)
-        print("case:", json.dumps(art["case"])[:2000])
+        res = [] if a.shard_only else mod.replay(case)
+        if not a.shard_only:
+            print("case:", json.dumps(art["case"])[:2000])
+        if not res and "shard" in art and not a.shard_only:
+            # the single case left its own traces in this process (caches, interned tables): the call history of the
+            # shard must be replayed in yet another fresh process
+            p = subprocess.run([sys.executable, os.path.abspath(__file__), pid, "--replay", a.replay, "--shard-only"], env={**os.environ, "PYTHONHASHSEED": "0"})
+            return p.returncode
         if not res and "shard" in art:
             # history-dependent violation: re-run the whole shard (its call history) in this fresh process
             st = Stats()
             shard = jdec(art["shard"])
+            # the worker that found it was forked from a parent that had already enumerated the shards:
+            # recreate that inherited process state before running the shard
+            list(mod.shards(art.get("tier", a.tier)))
             mod.run_shard(shard, art.get("tier", a.tier), st)
             res = [
                 {"signature": v["signature"], "expected": v["expected"], "observed": v["observed"]}
@@ -376,6 +386,7 @@ def main(argv: Optional[List[str]] = None) -> int:
         by_sig.setdefault(v["signature"], v)
     new_sigs = [s for s in by_sig if s not in known]
     rc = 0
+    unreproduced: List[Any] = []
     os.makedirs(os.path.join(OUT, "replays", pid), exist_ok=True)
     for sig in sorted(by_sig):
         v = by_sig[sig]
@@ -396,11 +407,17 @@ def main(argv: Optional[List[str]] = None) -> int:
                 env={**os.environ, "PYTHONHASHSEED": "0"},
             )
             if p.returncode != 1:
-                print(f"HARNESS-ERROR property={pid} replay of {path} did not reproduce (rc={p.returncode})")
-                print(p.stdout[-2000:], p.stderr[-2000:])
-                return 2
+                # not reported as a violation: a failure that a fresh process cannot repeat from its artefact is not believed
+                unreproduced.append((path, p.returncode, p.stdout[-2000:] + p.stderr[-2000:]))
+                continue
         print(f"VIOLATION property={pid} replay={path}  # {sig} (cases={viol_counts[sig]}) {v['what']}")
         rc = 1
+    for path, prc, tail in unreproduced:
+        print(f"{'UNREPRODUCED' if rc else 'HARNESS-ERROR'} property={pid} replay of {path} did not reproduce (rc={prc})")
+        if not rc:
+            print(tail)
+    if unreproduced and not rc:
+        return 2  # nothing reproducible was found, yet something was observed: the harness, not the code, is in doubt
 
     meta = mod.META
     coverage = {
